@@ -1371,3 +1371,60 @@ package ice
 //@ // field name is looked up for that location's name (composite fields mix source fields) ----
 //@ func (*interim).processDocument
 //@   at call:(*interim).getOrDefineField#0 lemma[C01] loc != nil && loc.FieldVal != ""
+//@
+//@ // ---- C05: decoder alignment on the clean path (no exclusions: Actual is the full bitmap) ----
+//@ // sameChunkNexts counts the postings of the target's chunk that this call stepped over; together
+//@ // with the records consumed before the call they are exactly the postings of that chunk below n.
+//@ func (*PostingsIterator).nextDocNumAtOrAfterClean
+//@   let A = itset(i.Actual)
+//@   let cs = i.postings.chunkSize
+//@   let F = i.freqNormReader
+//@   let C0 = old(itcur(i.Actual))
+//@   requires[C05] @aligned_clean i.includeFreqNorm && len(F.curChunkBytes) != 0 ==> upos(F) == 2 * (cardbelow(A, itcur(i.Actual)) - cardbelow(A, cstart(i.currChunk, cs))) && cstart(i.currChunk, cs) <= itcur(i.Actual) && itcur(i.Actual) <= cstart(i.currChunk, cs) + cs
+//@   requires[C05] @aligned_clean i.includeFreqNorm && len(F.curChunkBytes) == 0 ==> itcur(i.Actual) == 0
+//@   requires[C05] i.normBits1Hit == 0
+//@   loop 0 invariant[C05] nChunk == n / cs && i.postings == old(i.postings) && i.postings.chunkSize == old(i.postings.chunkSize) && i.normBits1Hit == 0 && 0 <= sameChunkNexts
+//@   loop 0 invariant[C05] i.currChunk == old(i.currChunk) && upos(F) == old(upos(F)) && len(F.curChunkBytes) == old(len(F.curChunkBytes))
+//@   loop 0 invariant[C05] cstart(nChunk, cs) <= C0 ==> sameChunkNexts == cardbelow(A, n) - cardbelow(A, C0)
+//@   loop 0 invariant[C05] cstart(nChunk, cs) > C0 ==> sameChunkNexts == cardbelow(A, n) - cardbelow(A, cstart(nChunk, cs))
+//@   let T = 2 * (cardbelow(A, n) - cardbelow(A, cstart(nChunk, cs)))
+//@   loop 1 invariant[C05] 0 <= j && j <= sameChunkNexts && i.postings == old(i.postings) && i.postings.chunkSize == old(i.postings.chunkSize) && i.normBits1Hit == 0 && itcur(i.Actual) == n + 1 && select(A, n) && nChunk == n / cs && itset(i.Actual) == old(itset(i.Actual)) && i.Actual == old(i.Actual)
+//@   loop 1 invariant[C05] len(F.curChunkBytes) != 0 && i.currChunk == nChunk ==> upos(F) == T - 2 * (sameChunkNexts - j)
+//@   loop 1 invariant[C05] !(len(F.curChunkBytes) != 0 && i.currChunk == nChunk) ==> j == 0 && T == 2 * sameChunkNexts
+//@   ensures[C05] @decoder_on_returned_document i.includeFreqNorm && err == nil && exists ==> len(F.curChunkBytes) != 0 && i.currChunk == docNum / cs && upos(F) == 2 * (cardbelow(A, docNum) - cardbelow(A, cstart(i.currChunk, cs))) && select(A, docNum)
+//@
+//@ // clean-path alignment as part of the iterator invariant at the API boundary (while postings remain)
+//@ func (*PostingsIterator).nextDocNumAtOrAfter
+//@   requires[C05] @aligned_clean i.includeFreqNorm && i.normBits1Hit == 0 && i.Actual != nil && i.postings != nil && i.postings.postings == i.ActualBM && least(itset(i.Actual), itcur(i.Actual)) != -1 && len(i.freqNormReader.curChunkBytes) != 0 ==> upos(i.freqNormReader) == 2 * (cardbelow(itset(i.Actual), itcur(i.Actual)) - cardbelow(itset(i.Actual), cstart(i.currChunk, i.postings.chunkSize))) && cstart(i.currChunk, i.postings.chunkSize) <= itcur(i.Actual) && itcur(i.Actual) <= cstart(i.currChunk, i.postings.chunkSize) + i.postings.chunkSize
+//@   requires[C05] @aligned_clean i.includeFreqNorm && i.normBits1Hit == 0 && i.Actual != nil && i.postings != nil && i.postings.postings == i.ActualBM && least(itset(i.Actual), itcur(i.Actual)) != -1 && len(i.freqNormReader.curChunkBytes) == 0 ==> itcur(i.Actual) == 0
+//@   ensures[C05] @decoder_on_returned_document_clean old(i.normBits1Hit) == 0 && old(i.Actual) != nil && old(i.postings != nil && i.postings.postings == i.ActualBM) && i.includeFreqNorm && err == nil && exists ==> len(i.freqNormReader.curChunkBytes) != 0 && i.currChunk == docNum / i.postings.chunkSize && upos(i.freqNormReader) == 2 * (cardbelow(itset(i.Actual), docNum) - cardbelow(itset(i.Actual), cstart(i.currChunk, i.postings.chunkSize))) && select(itset(i.Actual), docNum) && itcur(i.Actual) == docNum + 1
+//@ func (*PostingsIterator).nextAtOrAfter
+//@   requires[C05] @aligned_clean i.includeFreqNorm && i.normBits1Hit == 0 && i.Actual != nil && i.postings != nil && i.postings.postings == i.ActualBM && least(itset(i.Actual), itcur(i.Actual)) != -1 && len(i.freqNormReader.curChunkBytes) != 0 ==> upos(i.freqNormReader) == 2 * (cardbelow(itset(i.Actual), itcur(i.Actual)) - cardbelow(itset(i.Actual), cstart(i.currChunk, i.postings.chunkSize))) && cstart(i.currChunk, i.postings.chunkSize) <= itcur(i.Actual) && itcur(i.Actual) <= cstart(i.currChunk, i.postings.chunkSize) + i.postings.chunkSize
+//@   requires[C05] @aligned_clean i.includeFreqNorm && i.normBits1Hit == 0 && i.Actual != nil && i.postings != nil && i.postings.postings == i.ActualBM && least(itset(i.Actual), itcur(i.Actual)) != -1 && len(i.freqNormReader.curChunkBytes) == 0 ==> itcur(i.Actual) == 0
+//@   ensures[C05] @aligned_clean_kept result1 == nil && i.includeFreqNorm && i.normBits1Hit == 0 && i.Actual != nil && i.postings != nil && i.postings.postings == i.ActualBM && least(itset(i.Actual), itcur(i.Actual)) != -1 && len(i.freqNormReader.curChunkBytes) != 0 ==> upos(i.freqNormReader) == 2 * (cardbelow(itset(i.Actual), itcur(i.Actual)) - cardbelow(itset(i.Actual), cstart(i.currChunk, i.postings.chunkSize))) && cstart(i.currChunk, i.postings.chunkSize) <= itcur(i.Actual) && itcur(i.Actual) <= cstart(i.currChunk, i.postings.chunkSize) + i.postings.chunkSize
+//@   ensures[C05] @aligned_clean_kept result1 == nil && i.includeFreqNorm && i.normBits1Hit == 0 && i.Actual != nil && i.postings != nil && i.postings.postings == i.ActualBM && least(itset(i.Actual), itcur(i.Actual)) != -1 && len(i.freqNormReader.curChunkBytes) == 0 ==> itcur(i.Actual) == 0
+//@ func (*PostingsIterator).Next
+//@   requires[C05] @aligned_clean i.includeFreqNorm && i.normBits1Hit == 0 && i.Actual != nil && i.postings != nil && i.postings.postings == i.ActualBM && least(itset(i.Actual), itcur(i.Actual)) != -1 && len(i.freqNormReader.curChunkBytes) != 0 ==> upos(i.freqNormReader) == 2 * (cardbelow(itset(i.Actual), itcur(i.Actual)) - cardbelow(itset(i.Actual), cstart(i.currChunk, i.postings.chunkSize))) && cstart(i.currChunk, i.postings.chunkSize) <= itcur(i.Actual) && itcur(i.Actual) <= cstart(i.currChunk, i.postings.chunkSize) + i.postings.chunkSize
+//@   requires[C05] @aligned_clean i.includeFreqNorm && i.normBits1Hit == 0 && i.Actual != nil && i.postings != nil && i.postings.postings == i.ActualBM && least(itset(i.Actual), itcur(i.Actual)) != -1 && len(i.freqNormReader.curChunkBytes) == 0 ==> itcur(i.Actual) == 0
+//@   ensures[C05] @aligned_clean_kept result1 == nil && i.includeFreqNorm && i.normBits1Hit == 0 && i.Actual != nil && i.postings != nil && i.postings.postings == i.ActualBM && least(itset(i.Actual), itcur(i.Actual)) != -1 && len(i.freqNormReader.curChunkBytes) != 0 ==> upos(i.freqNormReader) == 2 * (cardbelow(itset(i.Actual), itcur(i.Actual)) - cardbelow(itset(i.Actual), cstart(i.currChunk, i.postings.chunkSize))) && cstart(i.currChunk, i.postings.chunkSize) <= itcur(i.Actual) && itcur(i.Actual) <= cstart(i.currChunk, i.postings.chunkSize) + i.postings.chunkSize
+//@   ensures[C05] @aligned_clean_kept result1 == nil && i.includeFreqNorm && i.normBits1Hit == 0 && i.Actual != nil && i.postings != nil && i.postings.postings == i.ActualBM && least(itset(i.Actual), itcur(i.Actual)) != -1 && len(i.freqNormReader.curChunkBytes) == 0 ==> itcur(i.Actual) == 0
+//@ func (*PostingsIterator).Advance
+//@   requires[C05] @aligned_clean i.includeFreqNorm && i.normBits1Hit == 0 && i.Actual != nil && i.postings != nil && i.postings.postings == i.ActualBM && least(itset(i.Actual), itcur(i.Actual)) != -1 && len(i.freqNormReader.curChunkBytes) != 0 ==> upos(i.freqNormReader) == 2 * (cardbelow(itset(i.Actual), itcur(i.Actual)) - cardbelow(itset(i.Actual), cstart(i.currChunk, i.postings.chunkSize))) && cstart(i.currChunk, i.postings.chunkSize) <= itcur(i.Actual) && itcur(i.Actual) <= cstart(i.currChunk, i.postings.chunkSize) + i.postings.chunkSize
+//@   requires[C05] @aligned_clean i.includeFreqNorm && i.normBits1Hit == 0 && i.Actual != nil && i.postings != nil && i.postings.postings == i.ActualBM && least(itset(i.Actual), itcur(i.Actual)) != -1 && len(i.freqNormReader.curChunkBytes) == 0 ==> itcur(i.Actual) == 0
+//@   ensures[C05] @aligned_clean_kept result1 == nil && i.includeFreqNorm && i.normBits1Hit == 0 && i.Actual != nil && i.postings != nil && i.postings.postings == i.ActualBM && least(itset(i.Actual), itcur(i.Actual)) != -1 && len(i.freqNormReader.curChunkBytes) != 0 ==> upos(i.freqNormReader) == 2 * (cardbelow(itset(i.Actual), itcur(i.Actual)) - cardbelow(itset(i.Actual), cstart(i.currChunk, i.postings.chunkSize))) && cstart(i.currChunk, i.postings.chunkSize) <= itcur(i.Actual) && itcur(i.Actual) <= cstart(i.currChunk, i.postings.chunkSize) + i.postings.chunkSize
+//@   ensures[C05] @aligned_clean_kept result1 == nil && i.includeFreqNorm && i.normBits1Hit == 0 && i.Actual != nil && i.postings != nil && i.postings.postings == i.ActualBM && least(itset(i.Actual), itcur(i.Actual)) != -1 && len(i.freqNormReader.curChunkBytes) == 0 ==> itcur(i.Actual) == 0
+//@ func (*PostingsIterator).nextAtOrAfter
+//@   loop 0 invariant[C05] i.includeFreqNorm && i.normBits1Hit == 0 && i.Actual != nil && i.postings != nil && i.postings.postings == i.ActualBM && least(itset(i.Actual), itcur(i.Actual)) != -1 && len(i.freqNormReader.curChunkBytes) != 0 ==> upos(i.freqNormReader) == 2 * (cardbelow(itset(i.Actual), itcur(i.Actual)) - cardbelow(itset(i.Actual), cstart(i.currChunk, i.postings.chunkSize))) && cstart(i.currChunk, i.postings.chunkSize) <= itcur(i.Actual) && itcur(i.Actual) <= cstart(i.currChunk, i.postings.chunkSize) + i.postings.chunkSize
+//@   loop 0 invariant[C05] i.includeFreqNorm && i.normBits1Hit == 0 && i.Actual != nil && i.postings != nil && i.postings.postings == i.ActualBM && least(itset(i.Actual), itcur(i.Actual)) != -1 && len(i.freqNormReader.curChunkBytes) == 0 ==> itcur(i.Actual) == 0
+//@ func mergeTermFreqNormLocs
+//@   requires[C05] @aligned_clean postItr.includeFreqNorm && postItr.normBits1Hit == 0 && postItr.Actual != nil && postItr.postings != nil && postItr.postings.postings == postItr.ActualBM && least(itset(postItr.Actual), itcur(postItr.Actual)) != -1 && len(postItr.freqNormReader.curChunkBytes) != 0 ==> upos(postItr.freqNormReader) == 2 * (cardbelow(itset(postItr.Actual), itcur(postItr.Actual)) - cardbelow(itset(postItr.Actual), cstart(postItr.currChunk, postItr.postings.chunkSize))) && cstart(postItr.currChunk, postItr.postings.chunkSize) <= itcur(postItr.Actual) && itcur(postItr.Actual) <= cstart(postItr.currChunk, postItr.postings.chunkSize) + postItr.postings.chunkSize
+//@   requires[C05] @aligned_clean postItr.includeFreqNorm && postItr.normBits1Hit == 0 && postItr.Actual != nil && postItr.postings != nil && postItr.postings.postings == postItr.ActualBM && least(itset(postItr.Actual), itcur(postItr.Actual)) != -1 && len(postItr.freqNormReader.curChunkBytes) == 0 ==> itcur(postItr.Actual) == 0
+//@   loop 0 invariant[C05] err == nil && postItr.includeFreqNorm && postItr.normBits1Hit == 0 && postItr.Actual != nil && postItr.postings != nil && postItr.postings.postings == postItr.ActualBM && least(itset(postItr.Actual), itcur(postItr.Actual)) != -1 && len(postItr.freqNormReader.curChunkBytes) != 0 ==> upos(postItr.freqNormReader) == 2 * (cardbelow(itset(postItr.Actual), itcur(postItr.Actual)) - cardbelow(itset(postItr.Actual), cstart(postItr.currChunk, postItr.postings.chunkSize))) && cstart(postItr.currChunk, postItr.postings.chunkSize) <= itcur(postItr.Actual) && itcur(postItr.Actual) <= cstart(postItr.currChunk, postItr.postings.chunkSize) + postItr.postings.chunkSize
+//@   loop 0 invariant[C05] err == nil && postItr.includeFreqNorm && postItr.normBits1Hit == 0 && postItr.Actual != nil && postItr.postings != nil && postItr.postings.postings == postItr.ActualBM && least(itset(postItr.Actual), itcur(postItr.Actual)) != -1 && len(postItr.freqNormReader.curChunkBytes) == 0 ==> itcur(postItr.Actual) == 0
+//@ func (*PostingsList).iterator
+//@   ensures[C05] @aligned_clean_established result1 == nil && result0.includeFreqNorm && result0.normBits1Hit == 0 && result0.Actual != nil && result0.postings != nil && result0.postings.postings == result0.ActualBM && least(itset(result0.Actual), itcur(result0.Actual)) != -1 && len(result0.freqNormReader.curChunkBytes) != 0 ==> upos(result0.freqNormReader) == 2 * (cardbelow(itset(result0.Actual), itcur(result0.Actual)) - cardbelow(itset(result0.Actual), cstart(result0.currChunk, result0.postings.chunkSize))) && cstart(result0.currChunk, result0.postings.chunkSize) <= itcur(result0.Actual) && itcur(result0.Actual) <= cstart(result0.currChunk, result0.postings.chunkSize) + result0.postings.chunkSize
+//@   ensures[C05] @aligned_clean_established result1 == nil && result0.includeFreqNorm && result0.normBits1Hit == 0 && result0.Actual != nil && result0.postings != nil && result0.postings.postings == result0.ActualBM && least(itset(result0.Actual), itcur(result0.Actual)) != -1 && len(result0.freqNormReader.curChunkBytes) == 0 ==> itcur(result0.Actual) == 0
+//@ func (*PostingsIterator).nextDocNumAtOrAfterClean
+//@   ensures[C05] @exhausted_when_nothing_found i.includeFreqNorm && err == nil && !exists ==> least(itset(i.Actual), itcur(i.Actual)) == -1
+//@ func (*PostingsIterator).nextDocNumAtOrAfter
+//@   ensures[C05] @exhausted_when_nothing_found_clean old(i.normBits1Hit) == 0 && old(i.postings != nil && i.postings.postings == i.ActualBM) && i.includeFreqNorm && err == nil && !exists ==> i.Actual == nil || least(itset(i.Actual), itcur(i.Actual)) == -1
